@@ -34,6 +34,33 @@ def to_inprocess(script):
         elif p[0] == "DUMP": out.append("DUMP")
     return out
 
+def to_model(script):
+    """the same script for the Lean model driver, which has the transports' per-request glue itself (Model/Session.lean: tcpGreeting,
+    Node.tcpLine, Node.wsMessage, transportTrailer): `B <sid> <bytes>` lines are what it says the connection's socket receives"""
+    out = ["RESET primary"]; ws = ws_sids(script)
+    for l in script:
+        p = l.split(" ", 2)
+        if p[0] == "T": out.append(f"TCPOPEN {p[1]}")
+        elif p[0] == "W": out.append(f"SESS {p[1]}")
+        elif p[0] in ("X", "XA", "XC"): out.append(f"CLOSE {p[1]}")
+        elif p[0] == "HA": pass
+        elif p[0] == "C" and not is_text(p[2] if len(p) > 2 else ""): pass
+        elif p[0] == "C": out.append(("WS " if int(p[1]) in ws else "TCP ") + p[1] + " " + (p[2] if len(p) > 2 else ""))
+        elif p[0] == "H": out.append("HTTP 99 " + l.split(" ", 1)[1])
+        elif p[0] == "DUMP": out.append("DUMP")
+    return out
+
+def model_expected(lines):
+    """streams, http bodies and data dumps from the model driver's output"""
+    streams = {}; https = []; dumps = []
+    for (inp, rest, dump) in core.parse_steps(lines):
+        for l in rest:
+            if l.startswith("M ") or l.startswith("B "):
+                q = l.split(" ", 2); streams.setdefault(int(q[1]), bytearray()).extend(core.unesc(q[2] if len(q) > 2 else ""))
+            elif l.startswith("H "): https.append(l[2:])
+        if inp == "DUMP": dumps.append(data_lines(dump))
+    return streams, https, dumps
+
 def expected(script, steps):
     """per-session byte streams, http bodies and data dumps the in-process run predicts for the sockets"""
     streams = {}; https = []; dumps = []; ws = ws_sids(script)
@@ -86,6 +113,20 @@ def run_one(ix_script, tag):
         exp = expected(script, core.parse_steps([l for l in q.stdout.split("\n") if l]))
         fails = []
         if p.returncode != 0: fails.append(Failure("transport-process-died", f"nvh transport rc={p.returncode}: {p.stderr[-300:]}"))
+        # the Lean model's own account of the transports (greeting, trailer of each transport, `;` split of a websocket message, disconnect)
+        mp = subprocess.run([core.MODEL], input="\n".join(to_model(script)) + "\n", stdout=subprocess.PIPE, stderr=subprocess.PIPE, text=True, timeout=300)
+        mexp = model_expected([l for l in mp.stdout.split("\n") if l])
+        for sid in sorted(set(mexp[0]) | set(obs[0])):
+            a, b = bytes(mexp[0].get(sid, b"")), bytes(obs[0].get(sid, b""))
+            if a != b:
+                fails.append(Failure("socket-received-differs-from-model:" + ("websocket" if sid in ws_sids(script) else "tcp"), f"session {sid}: model {a[:300]!r} socket {b[:300]!r}")); break
+        if mexp[1] != obs[1]:
+            k = next((i for i, (x, y) in enumerate(zip(mexp[1], obs[1])) if x != y), min(len(mexp[1]), len(obs[1])))
+            fails.append(Failure("http-response-differs-from-model", f"request {k}: model {mexp[1][k:k+1]} http {obs[1][k:k+1]}"))
+        for k, (x, y) in enumerate(zip(mexp[2], obs[2])):
+            if x != y:
+                dl = next(((a, b) for a, b in zip(x, y) if a != b), (x[len(y):][:1], y[len(x):][:1]))
+                fails.append(Failure("state-differs-from-model-after-real-transport-sessions", f"dump {k}: model {dl[0]} real transport {dl[1]}")); break
         for sid in sorted(set(exp[0]) | set(obs[0])):
             a, b = bytes(exp[0].get(sid, b"")), bytes(obs[0].get(sid, b""))
             if a != b:
@@ -107,7 +148,7 @@ def stage(pid, scripts, tag=None):
     with ThreadPoolExecutor(max_workers=8) as ex:
         rs = list(ex.map(lambda t: run_one(t, tag or pid), enumerate(scripts)))
     failures = [f for r in rs for f in r["fails"]]
-    cov = dict(real_transport=dict(scripts=len(scripts), operations=sum(r["ops"] for r in rs), socket_bytes_compared=sum(r["bytes"] for r in rs), failures=len(failures),
+    cov = dict(real_transport=dict(scripts=len(scripts), operations=sum(r["ops"] for r in rs), socket_bytes_compared=sum(r["bytes"] for r in rs), failures=len(failures), compared_with=["the Lean model's transport functions (tcpGreeting, Node.tcpLine, Node.wsMessage, Node.http, Node.tcpClose / close)", "the in-process run of the real process_request"],
                rule="the real tcp_ops / http_ops / ws_ops front ends on loopback ports, driven over sockets: bytes every socket received, HTTP response bodies and the data / connection counters afterwards must equal the in-process session run of the same script"))
     return dict(obligations=[("real-transport stage ran", len(rs) == len(scripts), f"{len(scripts)} scripts")], failures=failures, evaluations=len(scripts), coverage=cov)
 
